@@ -265,8 +265,15 @@ pub fn campaign(env: &Env, rep: &Report, runs: u64) {
                     corpus_seed(&corpus, mix(env.seed, hash_str(&sub)), 48);
                     let stats = work.join("stats.json");
                     let t0 = std::time::Instant::now();
+                    // sequence-valued cases (a few hundred filter steps or store operations per
+                    // input) cost about a millisecond each: a tenth of the executions
+                    let runs = match (env.prop.as_str(), sub.as_str()) {
+                        ("C07", "box-regular") | ("C07", "points") | ("C09", "random") | ("C11", "faults") => runs / 10,
+                        _ => runs,
+                    };
                     let out = std::process::Command::new(&bin)
                         .arg(format!("-runs={}", runs))
+                        .arg("-max_total_time=1200")
                         .arg(format!("-seed={}", (mix(env.seed, hash_str(&sub)) % 0x7fff_fffe) + 1))
                         .args(["-len_control=0", "-max_len=4096", "-print_final_stats=1", "-timeout=120", "-rss_limit_mb=4096"])
                         .arg(format!("-artifact_prefix={}/", work.display()))
@@ -286,7 +293,7 @@ pub fn campaign(env: &Env, rep: &Report, runs: u64) {
                     let cov = err.lines().rev().find_map(|l| l.split(" cov: ").nth(1).and_then(|r| r.split_whitespace().next()).and_then(|v| v.parse::<u64>().ok()));
                     let corp = err.lines().rev().find_map(|l| l.split(" corp: ").nth(1).and_then(|r| r.split('/').next()).and_then(|v| v.trim().parse::<u64>().ok()));
                     let st: Value = std::fs::read_to_string(&stats).ok().and_then(|t| serde_json::from_str(&t).ok()).unwrap_or(Value::Null);
-                    let mut info = json!({"executions": num("stat::number_of_executed_units:"), "coverage_edges": cov, "corpus_units": corp, "new_units_added": num("stat::new_units_added:"), "wall_s": wall, "exit": code, "oracle_stats": st});
+                    let mut info = json!({"executions_requested": runs, "executions": num("stat::number_of_executed_units:"), "coverage_edges": cov, "corpus_units": corp, "new_units_added": num("stat::new_units_added:"), "wall_s": wall, "exit": code, "oracle_stats": st});
                     let viol = err.lines().find_map(|l| l.strip_prefix("SV-FUZZ-VIOLATION ")).and_then(|l| l.split("replay=").nth(1)).map(|p| PathBuf::from(p.trim()));
                     let mut found = None;
                     if let Some(p) = viol {
@@ -316,5 +323,5 @@ pub fn campaign(env: &Env, rep: &Report, runs: u64) {
     }
     WATCHDOG_PAUSED.store(false, std::sync::atomic::Ordering::SeqCst);
     rep.set_extra("libfuzzer_campaigns", Value::Object(all));
-    rep.assume("coverage-guided tier: libFuzzer (cargo-fuzz, -s none, sancov edges of the library and the harness) feeds its bytes to the same proptest strategies through the PassThrough RNG and judges every input with the same oracle; -runs and -seed are fixed, the corpus starts from 48 pseudo-random files derived from VERIF_SEED");
+    rep.assume("coverage-guided tier: libFuzzer (cargo-fuzz, -s none, sancov edges of the library and the harness) feeds its bytes to the same proptest strategies through the PassThrough RNG and judges every input with the same oracle; -runs and -seed are fixed (a campaign also ends after 20 minutes; executions_requested vs executions shows when that happened), the corpus starts from 48 pseudo-random files derived from VERIF_SEED");
 }
